@@ -39,7 +39,9 @@ Theorem C11_script_applies : forall (old new : list (list Z)) (ds : list (op * n
 Proof. exact (script_applies list_eqb list_eqb_spec). Qed.
 Print Assumptions C11_script_applies.
 
-(* canonical means: no empty run, and every maximal block of edits between equal runs is "", D, I or D I *)
+(* canonical means: every block of consecutive edits between equal runs is "", D, I or D I (runs may be empty:
+   the engine of go-diff v1.0.0 emits e.g. "d1 i0" now and then, which the property does not forbid and both
+   consumers tolerate - the theorems below cover such scripts) *)
 Theorem C11_canonical_blocks : forall (pre blk post : list (op * nat)),
   canonical (pre ++ blk ++ post) = true -> Forall is_edit blk ->
   blk = [] \/ (exists n, blk = [(Delete, n)]) \/ (exists n, blk = [(Insert, n)])
@@ -113,6 +115,52 @@ Theorem C11_modification_chain_refuted :
 Proof. exact modification_chain_refuted. Qed.
 Print Assumptions C11_modification_chain_refuted.
 
+(* -- 6. the property-level oracle applied to the implementation's outputs: lines = the lines of the unstripped
+      blobs (their number is CountLines), "identical" = equal after removing the spaces when WhitespaceIgnore is
+      on.  Whatever the implementation reports, if the oracle accepts it the consumer does, for every configuration. *)
+Theorem C11_spec_chain : forall (V : Type) (v : V) (ws : bool) (a b : list Z) (ds : list (op * nat)) (file : list V),
+  textb a = true -> textb b = true ->
+  spec_ok ws a b ds = true ->
+  count_lines a = Lines (length file) ->
+  exists file', handle_modification v (length (split_lines a)) (length (split_lines b)) file ds = HmOk file'
+                /\ count_lines b = Lines (length file') /\ file' = relabel v ds file.
+Proof. exact (fun V => @spec_chain V). Qed.
+Print Assumptions C11_spec_chain.
+
+(* outside the class of F9 the oracle coincides with validating against what FileDiff feeds into the engine *)
+Theorem C11_spec_ok_file_diff_ok : forall (ws : bool) (a b : list Z) (ds : list (op * nat)),
+  (ws = false \/ (last_blank a = false /\ last_blank b = false)) ->
+  spec_ok ws a b ds = file_diff_ok ws a b ds.
+Proof. exact spec_ok_file_diff_ok. Qed.
+Print Assumptions C11_spec_ok_file_diff_ok.
+
+Theorem C11_split_lines_strip : forall b : list Z,
+  split_lines (strip_whitespace b) = filter nonempty (map strip_whitespace (split_lines b))
+  /\ (last_blank b = false -> split_lines (strip_whitespace b) = map strip_whitespace (split_lines b)).
+Proof.
+  exact (fun b => conj (eq_trans (split_lines_spec _) (eq_trans (lines_of_strip b)
+                        (f_equal (fun l => filter nonempty (map strip_whitespace l)) (eq_sym (split_lines_spec b)))))
+                       (split_lines_strip b)).
+Qed.
+Print Assumptions C11_split_lines_strip.
+
+(* -- 7. the candidate repair of F9 (keep a last line of spaces as one space) makes the counts agree on EVERY
+      text blob and restores the chain with WhitespaceIgnore *)
+Theorem C11_strip_fixed_agrees : forall b : list Z, textb b = true ->
+  count_lines b = Lines (length (split_lines (strip_whitespace_fixed b))).
+Proof. exact strip_fixed_agrees. Qed.
+Print Assumptions C11_strip_fixed_agrees.
+
+Theorem C11_modification_chain_fixed : forall (V : Type) (v : V) (a b : list Z) (ds : list (op * nat)) (file : list V),
+  textb a = true -> textb b = true ->
+  lines_script_ok (split_lines (strip_whitespace_fixed a)) (split_lines (strip_whitespace_fixed b)) ds = true ->
+  count_lines a = Lines (length file) ->
+  exists file', handle_modification v (length (split_lines (strip_whitespace_fixed a)))
+                  (length (split_lines (strip_whitespace_fixed b))) file ds = HmOk file'
+                /\ count_lines b = Lines (length file').
+Proof. exact (fun V => @modification_chain_fixed V). Qed.
+Print Assumptions C11_modification_chain_fixed.
+
 (* -- non-vacuity: concrete blobs and scripts that satisfy the hypotheses *)
 Definition ex_a : list Z := [97; 13; 10; 98; 10; 255; 254; 10; 99]%Z.        (* "a\r\nb\n\xff\xfe\nc"  *)
 Definition ex_b : list Z := [97; 13; 10; 120; 10; 121; 10; 255; 254; 10]%Z.  (* "a\r\nx\ny\n\xff\xfe\n" *)
@@ -132,8 +180,19 @@ Example C11_ex_consumer :
   /\ handle_modification 7 4 5 [1; 2; 3; 4] ex_ds = HmErr IntegrityDst
   /\ handle_modification 7 4 4 [1; 2; 3; 4] [(Equal, 4); (Delete, 1)] = HmPanic.
 Proof. vm_compute. repeat split; reflexivity. Qed.
+Example C11_ex_empty_runs :   (* an observed output of the real engine *)
+  canonical [(Equal, 1); (Insert, 3); (Equal, 4); (Delete, 1); (Insert, 0); (Equal, 1); (Insert, 1); (Equal, 1); (Insert, 1)] = true
+  /\ handle_modification 7 3 3 [1; 2; 3] [(Equal, 1); (Delete, 1); (Insert, 0); (Equal, 1); (Insert, 0); (Insert, 1)] = HmOk [1; 3; 7]
+  /\ handle_modification 7 3 3 [1; 2; 3] [(Equal, 1); (Insert, 1); (Insert, 0); (Equal, 1)] = HmErr InsertAfterInsert.
+Proof. vm_compute. repeat split; reflexivity. Qed.
 Example C11_ex_stats : line_stats ex_ds = mkL 1 1 1 0.
 Proof. vm_compute. reflexivity. Qed.
+Example C11_ex_spec : spec_ok false ex_a ex_b ex_ds = true /\ spec_ok true ex_a ex_b ex_ds = true
+  /\ spec_ok true [97; 32; 10; 98; 10]%Z [32; 97; 10; 99; 10]%Z [(Equal, 1); (Delete, 1); (Insert, 1)] = true
+  /\ spec_ok false [97; 32; 10; 98; 10]%Z [32; 97; 10; 99; 10]%Z [(Equal, 1); (Delete, 1); (Insert, 1)] = false
+  /\ spec_ok true f9_witness [195; 169; 10]%Z [(Equal, 1)] = false
+  /\ strip_whitespace_fixed f9_witness = [195; 169; 10; 32]%Z.
+Proof. vm_compute. repeat split; reflexivity. Qed.
 Example C11_ex_strip : last_blank f9_witness = true /\ last_blank ex_a = false
   /\ strip_whitespace [32; 97; 32; 9; 10; 32]%Z = [97; 9; 10]%Z.
 Proof. vm_compute. repeat split; reflexivity. Qed.
